@@ -333,6 +333,12 @@ class C17(Prop):
             c = self.gen_case(rng.fork("synth%d" % i), (pth, open(pth, "rb").read(), kind), True)
             c.update({"mutation": "synthetic", "what": [name], "shifts": [3], "layout": None})
             cases.append(c)
+            if "nested" in name:
+                # nested fat headers: both values of process_memory
+                for pm in (False, True):
+                    c2 = json.loads(json.dumps(c))
+                    c2["process_memory"] = pm
+                    cases.append(c2)
         # systematic: every header field that announces how many entries a table has := more than the file holds (and 0);
         # the published counters must still equal the published collections.  Light cases: no probes, one scan pair.
         n_sweep = 0
